@@ -605,6 +605,10 @@ pub fn table_xml(t: &MTable, id: usize) -> String {
     if let Some(n) = t.totals_rows {
         s.push_str(&format!(" totalsRowCount=\"{}\"", n));
     }
+    if t.name.ends_with("Ins") {
+        // a table showing its (empty) insert row
+        s.push_str(" insertRow=\"1\"");
+    }
     s.push('>');
     if t.header_rows != Some(0) {
         s.push_str(&format!("<autoFilter ref=\"{}\"/>", a1_rect(t.rect)));
@@ -719,7 +723,14 @@ pub fn encode(book: &MBook, ch: &XlsxChoices, rng: &mut Rng) -> Encoded {
     styles.push_str(&format!("<{0} count=\"2\"><{1} numFmtId=\"14\" fontId=\"0\"/><{1} numFmtId=\"0\"/></{0}>", e.q("cellStyleXfs"), e.q("xf")));
     styles.push_str(&format!("<{} count=\"{}\">", e.q("cellXfs"), book.xfs.len()));
     for f in &book.xfs {
-        let a = e.attrs(vec![("numFmtId".into(), f.id.to_string()), ("fontId".into(), "0".into()), ("xfId".into(), "0".into()), ("applyNumberFormat".into(), "1".into())]);
+        // numFmtId is optional (default 0 = General): leave it out for General styles now and then
+        let mut av = vec![("numFmtId".to_string(), f.id.to_string()), ("fontId".into(), "0".into()), ("xfId".into(), "0".into()), ("applyNumberFormat".into(), "1".into())];
+        if f.id == 0 && e.rng.bool() {
+            av.remove(0);
+            av.pop();
+            e.count("xf_without_numFmtId");
+        }
+        let a = e.attrs(av);
         if e.rng.bool() {
             styles.push_str(&format!("<{}{}/>", e.q("xf"), a));
         } else {
